@@ -172,7 +172,7 @@ func runC18(c *Ctx, idx int) {
 	scalarCases := len(refActs) * c18Batches
 	n := 60000
 	if c.Tier == "thorough" {
-		n = 400000
+		n = 1200000
 	}
 	if idx <= scalarCases {
 		ra := &refActs[(idx-1)/c18Batches]
